@@ -43,6 +43,7 @@ def jEvent (j : Json) : Except String Event := do
   | [.str "cons", v, sc, n, cc] =>
     pure (.read (.prodCons false (← jStr v) (← jBool sc) (← jNorm n) (← jBool cc)))
   | [.str "setpars", p] => pure (.setPars (← jAssoc jRat p))
+  | [.str "pvals"] => pure .modelPars
   | _ => .error s!"bad event {j.compress}"
 
 def rowJ (r : Row) : Json := assocJ ratJ r
@@ -65,8 +66,14 @@ def handle (j : Json) : Except String Json := do
   let res : Res := { rawVars, rawPars }
   let evs ← jList jEvent (← field j "events")
   let spec := match fieldD j "spec" (.bool false) with | .bool b => b | _ => false
+  -- what the shared model holds when the history starts (a result recorded by the
+  -- Simulator leaves it with the last segment's parameters)
+  let initPars ← jAssoc jRat (fieldD j "init_pars" (.arr #[]))
+  let c ← match withPars c initPars with
+    | .ok c' => pure c'
+    | .error _ => .error "init_pars: unknown parameter"
   let out :=
-    if spec then specHistory res c evs
+    if spec then specHistory res c c evs
     else runHistory res evs { model := c, memo := [] }
   pure (.arr (out.map (resJ viewJ)).toArray)
 
